@@ -2,6 +2,7 @@ package c11
 
 import (
 	"bytes"
+	"crypto/x509"
 	"fmt"
 	"os"
 	"slices"
@@ -218,6 +219,19 @@ func model(c *Case) verdict {
 		}
 	}
 
+	// signatures inside the server's chain (every fixture chain is signed with ECDSA/SHA-256): a verifying
+	// client whose list for certificates - its own, else the handshake list - lacks that scheme has no
+	// acceptable value
+	if !c.C.NoVerify && c.C.RootCA != 0 && c.S.Cert != "" && c.C.PSK == "" {
+		allowed := c.C.CertSigSchemes
+		if len(allowed) == 0 {
+			allowed = c.C.SigSchemes
+		}
+		if len(allowed) > 0 && !slices.Contains(allowed, 0x0403) {
+			return verdict{mustFail: "chain-signature-not-allowed"}
+		}
+	}
+
 	return verdict{}
 }
 
@@ -302,6 +316,12 @@ func run(c Case, r *pbt.R) {
 					}
 					// the detecting side fails at once with an alert; the peer must learn it from the alert
 					if oe := other.Err(); oe != nil && !strings.Contains(oe.Error(), "deadline exceeded") {
+						if other == p.C && slices.Contains(cp.versions, 13) && slices.Contains(sp.versions, 13) && c.C.CID != 0 && c.S.CID > 0 && c.S.CID != 1000 {
+							// one situation, whatever made the client give up: see known_findings.json
+							r.Failf("C11|no-alert-on-failure|dtls13-client-aborts-after-server-cid", "%s detected the failure (%v) but %s only ran into its deadline: the alert left without the server's connection ID", other.Name, oe, sd.Name)
+
+							return
+						}
 						r.Failf("C11|no-alert-on-failure|"+vd.mustFail+"|"+shortErr(oe), "%s detected the failure (%v) but %s only ran into its deadline: no alert reached it", other.Name, oe, sd.Name)
 
 						return
@@ -315,6 +335,13 @@ func run(c Case, r *pbt.R) {
 					if rc.Kind != "unified" && rc.Type == scen.CTAlert && rc.Epoch == 0 && len(rc.Body) == 2 && rc.Body[0] == 2 {
 						sawFatal = true
 					}
+				}
+			}
+			// DTLS 1.3 protects an alert sent after the handshake keys exist: the tap cannot read it, the
+			// receiving side's error ("alert: Alert Fatal: ...") names it
+			for _, sd := range []*scen.Side{p.C, p.S} {
+				if e := sd.Err(); e != nil && strings.Contains(e.Error(), "alert: Alert Fatal") {
+					sawFatal = true
 				}
 			}
 			if !sawFatal {
@@ -489,6 +516,32 @@ func run(c Case, r *pbt.R) {
 				return
 			}
 		}
+		// signatures inside the accepted chain: "If not set, ... SignatureSchemes is used for both handshake
+		// signatures and certificate chain validation" (WithCertificateSignatureSchemes)
+		if okC && !c.C.NoVerify {
+			allowed := c.C.CertSigSchemes
+			if len(allowed) == 0 {
+				allowed = c.C.SigSchemes
+			}
+			if cst, ok := p.C.Conn.ConnectionState(); ok && len(allowed) > 0 {
+				for i, der := range cst.PeerCertificates {
+					crt, err := x509.ParseCertificate(der)
+					if err != nil || bytes.Equal(crt.RawIssuer, crt.RawSubject) {
+						continue // a root is trusted by configuration, not by its signature
+					}
+					id := map[x509.SignatureAlgorithm]uint16{
+						x509.ECDSAWithSHA256: 0x0403, x509.ECDSAWithSHA384: 0x0503, x509.ECDSAWithSHA512: 0x0603,
+						x509.PureEd25519: 0x0807, x509.SHA256WithRSA: 0x0401, x509.SHA384WithRSA: 0x0501, x509.SHA512WithRSA: 0x0601,
+					}[crt.SignatureAlgorithm]
+					if id != 0 && !slices.Contains(allowed, id) {
+						r.Failf(fmt.Sprintf("C11|certificate-signature-outside-client-policy|1.%d", ver-10), "client accepted a chain whose certificate %d is signed with %04x; it allows %04x for certificates (cert list %04x, handshake list %04x)", i, id, allowed, c.C.CertSigSchemes, c.C.SigSchemes)
+
+						return
+					}
+					r.Class("chain-signature-checked")
+				}
+			}
+		}
 		// SRTP / ALPN
 		if prof, ok := side.Conn.SelectedSRTPProtectionProfile(); ok {
 			if !slices.Contains(c.C.SRTP, uint16(prof)) || !slices.Contains(c.S.SRTP, uint16(prof)) {
@@ -646,6 +699,8 @@ func genSide(t *rapid.T, label string, server bool, family string) scen.EP {
 		}
 	} else if server {
 		ep.Cert = rapid.SampledFrom([]string{"ecdsa", "ecdsa", "ed25519", "rsa"}).Draw(t, label+"cert")
+	} else if rapid.Bool().Draw(t, label+"verify") {
+		ep.RootCA, ep.ServerName = 1, scen.ServerName
 	} else {
 		ep.NoVerify = true
 	}
@@ -654,6 +709,9 @@ func genSide(t *rapid.T, label string, server bool, family string) scen.EP {
 	}
 	if family != "psk" {
 		ep.SigSchemes = genList(t, label+"sigs", []uint16{0x0403, 0x0503, 0x0603, 0x0807, 0x0401, 0x0804}, 1)
+		if !server && rapid.IntRange(0, 2).Draw(t, label+"certsigsOn") == 0 {
+			ep.CertSigSchemes = genList(t, label+"certsigs", []uint16{0x0403, 0x0503, 0x0807, 0x0401}, 1)
+		}
 	}
 	if server {
 		ep.SkipHelloVfy = rapid.Bool().Draw(t, label+"skiphv")
@@ -794,6 +852,12 @@ func gen(t *rapid.T) Case {
 				if len(c.S.SigSchemes) > 0 && !slices.Contains(c.S.SigSchemes, fit) {
 					c.S.SigSchemes = append(c.S.SigSchemes, fit)
 				}
+			}
+			// every fixture chain is signed with ECDSA/SHA-256
+			if len(c.C.CertSigSchemes) > 0 && !slices.Contains(c.C.CertSigSchemes, 0x0403) {
+				c.C.CertSigSchemes = append(c.C.CertSigSchemes, 0x0403)
+			} else if len(c.C.CertSigSchemes) == 0 && len(c.C.SigSchemes) > 0 && !slices.Contains(c.C.SigSchemes, 0x0403) {
+				c.C.CertSigSchemes = []uint16{0x0403}
 			}
 		}
 		if family == "cert" && keep("ak") {
